@@ -38,6 +38,13 @@ PANIC_CALLS = ('core::panicking::', 'std::rt::panic_fmt', 'core::result::Result:
                'generic_array::GenericArray::clone_from_slice', 'generic_array::GenericArray::from_slice', 'core::slice::split_at')
 
 
+class _Prefix:
+    """the part of a path before an obligation: only its events matter to the length reasoning"""
+
+    def __init__(self, events):
+        self.events = events
+
+
 def DEP_LENGTHS(len_term, P):
     """lengths of byte strings produced by dependency encoders (DESIGN 3.6): (length, name, reason)"""
     a = app_args(len_term, 'len')
@@ -170,8 +177,7 @@ def run(ctx):
                     elif k in ('slice', 'exact-len', 'index'):
                         visited.add(e[-1])
                         tot_slice += 1
-                        pre = core.Path(p.state, p.value)
-                        pre.events = p.events[:i]
+                        pre = _Prefix(p.events[:i])
                         L = num.path_lengths(pre, var, P, None) if var is not None else num.Lens()
                         vals = L.values()[:] + ([num.WINDOW, 10 ** 9] if L.unbounded else [])
 
